@@ -184,7 +184,7 @@ func (p *Program) findFunc(target string) []*ssa.Function {
 		parts := strings.SplitN(rest, "$", 2)
 		for _, parent := range p.findFunc(pkgName + "." + parts[0]) {
 			for _, an := range parent.AnonFuncs {
-				if an.Name() == parent.Name()+"$"+parts[1] || an.Name() == parts[1] {
+				if an.Name() == rest || an.Name() == parent.Name()+"$"+parts[1] || an.Name() == parts[1] {
 					return []*ssa.Function{an}
 				}
 			}
